@@ -11,7 +11,7 @@ use oracle::rng::{mix, Rng};
 use serde_json::json;
 
 pub const ID: &str = "C01";
-pub const FAMS: [&str; 8] = ["boundary", "auto-version", "every-length", "random-length", "real-world-prefixes", "crafted", "forced-mode-outside-alphabet", "power-of-two-lengths"];
+pub const FAMS: [&str; 9] = ["boundary", "auto-version", "every-length", "random-length", "real-world-prefixes", "crafted", "forced-mode-outside-alphabet", "power-of-two-lengths", "no-level-given-at-other-levels-boundaries"];
 
 pub fn jobs(ctx: &Ctx) -> Vec<Job> {
     let caps = &ctx.caps;
@@ -47,6 +47,27 @@ pub fn jobs(ctx: &Ctx) -> Vec<Job> {
                     let lvl = if level == 2 && m % 2 == 1 { None } else { Some(level) };
                     push(&mut jobs, FAMS[1], class, mode, lvl, None, len, &mut k);
                 }
+            }
+        }
+    }
+    // no level given (the default, Q, applies) and the version forced, at lengths that are boundaries of the OTHER
+    // levels in that version: capacity of H and M, one below and one above - whatever a build does with the room that
+    // is left over in a pinned version, the symbol must still decode to the input
+    for v in 1..=40usize {
+        for m in 0..4usize {
+            let class = if m < 3 { m } else { v % 3 };
+            let mode = if m < 3 { Some(m) } else { None };
+            let q = caps.cap(v, oracle::tables::Q, class);
+            let mut lens = Vec::new();
+            for level in [oracle::tables::H, oracle::tables::M, oracle::tables::Q] {
+                let c = caps.cap(v, level, class);
+                lens.extend([c.saturating_sub(1), c, c + 1]);
+            }
+            lens.retain(|&l| l <= q);
+            lens.sort();
+            lens.dedup();
+            for len in lens {
+                push(&mut jobs, FAMS[8], class, mode, None, Some(v), len, &mut k);
             }
         }
     }
@@ -255,7 +276,7 @@ pub fn run(ctx: &Ctx) -> Report {
     });
     let mut rep = Report::new(
         st,
-        "jobs = (version x level x forced mode|auto) x boundary lengths {0,1,cap(v-1)+1,cap-1,cap} with forced and automatic version, mask rotating over 0..7 and automatic, payload generator rotating over 11 generators (thorough: every length for v<=6, random lengths above) + every entry of a dictionary of real-world prefixes and magic byte sequences (URL schemes in both cases, WIFI:/vCard/MECARD, byte order marks, GS1/AIM escapes, control bytes, multi-byte text) alone and with tails + crafted byte payloads (data area equal to a mask pattern / uniform / stripes; blocks of padding pattern / zeros / identical blocks) + inputs outside the forced mode's alphabet (a symbol, if returned, must still decode to the input); each execution builds through QRBuilder and decodes the module values with the oracle reference decoder; distinct key = (mode,level,version,mask options, len, payload hash); non-trivial = non-empty payload",
+        "jobs = (version x level x forced mode|auto) x boundary lengths {0,1,cap(v-1)+1,cap-1,cap} with forced and automatic version + no level given with the version forced at the capacities (-1, +0, +1) of levels H, M and Q in that version, mask rotating over 0..7 and automatic, payload generator rotating over 11 generators (thorough: every length for v<=6, random lengths above) + every entry of a dictionary of real-world prefixes and magic byte sequences (URL schemes in both cases, WIFI:/vCard/MECARD, byte order marks, GS1/AIM escapes, control bytes, multi-byte text) alone and with tails + crafted byte payloads (data area equal to a mask pattern / uniform / stripes; blocks of padding pattern / zeros / identical blocks) + inputs outside the forced mode's alphabet (a symbol, if returned, must still decode to the input); each execution builds through QRBuilder and decodes the module values with the oracle reference decoder; distinct key = (mode,level,version,mask options, len, payload hash); non-trivial = non-empty payload",
     );
     rep.expected_sets = vec![("version_level", 160), ("version_mask", 320), ("class_mode", 9), ("forced_bits", 16)];
     rep.required_sets = vec![("version_level", 160), ("version_mask", 320), ("class_mode", 9)];
